@@ -8,7 +8,7 @@ STRS = ['', '0b', '0x', '0b1', '0xf', '0o7', '0b12', '0xg', 'uint:8=3', 'uint:8'
         'se', 'bool=2', 'float:17=1', 'foo', 'foo:8', '8', '-8', '2*uint:4=1', '0*(uint:8)', '3*', '*3', '(', ')', '2*(', ',,',
         'bits:5', 'bytes:2', 'pad:3', 'pad:-1', '>H', '<2h', '@l', '=', 'bin', 'hex', 'oct:7', 'uint:n', 'e4m3mxfp=nan',
         'e2m1mxfp=nan', 'bfloat=1e99', 'uintbe:12=1', '0b1, 0x', 'uint8=256', 'int8=-129', 'u', 'i8', 'b, h', 'bin, hex',
-        'bytes', 'float:64', ' uint : 8 = 3 ', 'uint:8=3,', 'ue, se, hex', 'hex, bin', 'mxint=1e9', 'e8m0mxfp=3', 'bits=5']
+        'bytes', 'float:64', 'uint0', 'bits0', 'hex:0', 'int:0', ' uint : 8 = 3 ', 'uint:8=3,', 'ue, se, hex', 'hex, bin', 'mxint=1e9', 'e8m0mxfp=3', 'bits=5']
 FLOATS = ['0.0', '-0.0', '1.5', 'inf', '-inf', 'nan', '1e308', '1e-320', '2.5', '-3.0']
 
 METHODS = {
